@@ -57,10 +57,25 @@ theorem shrL_map (fix : Bool) (ks : List Node) : shrL fix ks = ks.map (shrN fix)
   | nil => simp [shrL]
   | cons k ks ih => simp [shrL, ih]
 
+mutual
+/-- some parenthesised group carries two Def-expand tags (where `shrink_defs` raises KeyError) -/
+def sErrN : Node → Bool
+  | .tag _ => false
+  | .grp ks => decide ((deTags ks).length ≥ 2) || sErrL ks
+def sErrL : List Node → Bool
+  | [] => false
+  | k :: ks => sErrN k || sErrL ks
+end
+
 theorem shrErrL_any (ks : List Node) : shrErrL ks = ks.any shrErrN := by
   induction ks with
   | nil => simp [shrErrL]
   | cons k ks ih => simp [shrErrL, ih]
+
+theorem sErrL_any (ks : List Node) : sErrL ks = ks.any sErrN := by
+  induction ks with
+  | nil => simp [sErrL]
+  | cons k ks ih => simp [sErrL, ih]
 
 theorem anyTagL_any (p : Bool → Tag → Bool) (g : Bool) (ks : List Node) :
     anyTagL p g ks = ks.any (anyTag p g) := by
@@ -558,28 +573,28 @@ theorem deTags_nodef {ks : List Node} (h : ∀ k ∈ ks, NoDef k) : deTags ks = 
   simp [this]
 
 /-- content of a good dictionary is inert under both rewrites and never makes `shrink_defs` fail -/
-theorem nodef_inert (dd : DefDict) : ∀ n, NoDef n → sEN fold dd n = n ∧ sSN n = n ∧ shrErrN n = false := by
+theorem nodef_inert (dd : DefDict) : ∀ n, NoDef n → sEN fold dd n = n ∧ sSN n = n ∧ sErrN n = false := by
   apply node_ind
   · intro t h
     have := h t (by simp [allTags])
-    simp [sEN, sETag, sSN, shrErrN, this]
+    simp [sEN, sETag, sSN, sErrN, this]
   · intro ks ih h
     have hk := nodef_kids h
     have hd := deTags_nodef hk
     refine ⟨?_, ?_, ?_⟩
     · simp only [sEN, sEL_map, Node.grp.injEq]; exact map_eq_self.2 (fun k hx => (ih k hx (hk k hx)).1)
     · simp only [sSN, hd, sSL_map, Node.grp.injEq]; exact map_eq_self.2 (fun k hx => (ih k hx (hk k hx)).2.1)
-    · simp only [shrErrN, hd, shrErrL_any, List.length_nil]
-      have : ks.any shrErrN = false := by
+    · simp only [sErrN, hd, sErrL_any, List.length_nil]
+      have : ks.any sErrN = false := by
         simp only [List.any_eq_false]; intro k hx; simp [(ih k hx (hk k hx)).2.2]
       simp [this]
 
 theorem nodefL_inert (dd : DefDict) (cs : List Node) (h : ∀ k ∈ cs, NoDef k) :
-    sEL fold dd cs = cs ∧ sSL cs = cs ∧ shrErrL cs = false ∧ deTags cs = [] := by
+    sEL fold dd cs = cs ∧ sSL cs = cs ∧ sErrL cs = false ∧ deTags cs = [] := by
   refine ⟨?_, ?_, ?_, deTags_nodef h⟩
   · rw [sEL_map]; exact map_eq_self.2 (fun k hk => (nodef_inert fold dd k (h k hk)).1)
   · rw [sSL_map]; exact map_eq_self.2 (fun k hk => (nodef_inert fold dd k (h k hk)).2.1)
-  · rw [shrErrL_any]; simp only [List.any_eq_false]; intro k hk; simp [(nodef_inert fold dd k (h k hk)).2.2]
+  · rw [sErrL_any]; simp only [List.any_eq_false]; intro k hk; simp [(nodef_inert fold dd k (h k hk)).2.2]
 
 /-- direct Def-expand tags of a group are not touched by the expansion rewrite -/
 theorem deTags_sEL (dd : DefDict) (ks : List Node) : deTags (sEL fold dd ks) = deTags ks := by
@@ -665,7 +680,7 @@ theorem sS_idem : ∀ n, sSN (sSN n) = sSN n := by
       exact List.map_congr_left (fun k hk => by simpa using ih k hk)
     | cons t r => simp [sSN, hd]
 
-theorem shrErr_sE : ∀ n, shrErrN (sEN fold dd n) = shrErrN n := by
+theorem shrErr_sE : ∀ n, sErrN (sEN fold dd n) = sErrN n := by
   apply node_ind
   · intro t
     simp only [sEN, sETag]
@@ -677,29 +692,29 @@ theorem shrErr_sE : ∀ n, shrErrN (sEN fold dd n) = shrErrN n := by
         have hi := nodefL_inert fold dd cs hc
         have hd := hi.2.2.2
         simp only [deTags] at hd
-        simp [shrErrN, shrErrL, deTags, tagsOf, hd, hi.2.2.1]
+        simp [sErrN, sErrL, deTags, tagsOf, hd, hi.2.2.1]
       | noEntry => rfl
       | mismatch b => rfl
       | internal => rfl
     · simp [hb]
   · intro ks ih
-    simp only [sEN, shrErrN, deTags_sEL]
-    rw [shrErrL_any, shrErrL_any, sEL_map, List.any_map]
+    simp only [sEN, sErrN, deTags_sEL]
+    rw [sErrL_any, sErrL_any, sEL_map, List.any_map]
     congr 1
     exact any_congr' (fun k hk => by simpa using ih k hk)
 
 omit hg in
-theorem shrErr_sS : ∀ n, shrErrN n = false → shrErrN (sSN n) = false := by
+theorem shrErr_sS : ∀ n, sErrN n = false → sErrN (sSN n) = false := by
   apply node_ind
-  · intro t _; simp [sSN, shrErrN]
+  · intro t _; simp [sSN, sErrN]
   · intro ks ih h
-    simp only [shrErrN, Bool.or_eq_false_iff, shrErrL_any, List.any_eq_false] at h
+    simp only [sErrN, Bool.or_eq_false_iff, sErrL_any, List.any_eq_false] at h
     cases hd : deTags ks with
-    | cons t r => simp [sSN, hd, shrErrN]
+    | cons t r => simp [sSN, hd, sErrN]
     | nil =>
-      simp only [sSN, hd, shrErrN, deTags_sSL, List.length_nil]
-      rw [shrErrL_any, sSL_map, List.any_map]
-      have : ks.any (shrErrN ∘ sSN) = false := by
+      simp only [sSN, hd, sErrN, deTags_sSL, List.length_nil]
+      rw [sErrL_any, sSL_map, List.any_map]
+      have : ks.any (sErrN ∘ sSN) = false := by
         simp only [List.any_eq_false]
         intro k hk
         have := ih k hk (by simpa using h.2 k hk)
@@ -709,8 +724,9 @@ theorem shrErr_sS : ∀ n, shrErrN n = false → shrErrN (sSN n) = false := by
 
 /-! ## The mutable object refines the two rewrites -/
 
-/-- once `expandable` has been computed, `_expanded` tells whether the tag is in Def-expand form -/
-def InvT (t : Tag) : Prop := t.cached = true → t.expanded = (t.base == .defExpand)
+/-- once `expandable` has been computed, `_expanded` tells whether the tag is in Def-expand form; and the tag's
+`_parent` is the group that holds it -/
+def InvT (t : Tag) : Prop := (t.cached = true → t.expanded = (t.base == .defExpand)) ∧ t.att = .ok
 def InvN (n : Node) : Prop := ∀ t ∈ allTags n, InvT t
 
 /-- a well-formed object: no cycle, flags consistent (true of every freshly parsed `HedString`) -/
@@ -732,7 +748,7 @@ theorem inv_of_erased {cs : List Node} (h : eraseL cs = cs) : ∀ k ∈ cs, InvN
   intro k hk t ht
   have : t ∈ allTagsL (eraseL cs) := by rw [h]; exact mem_allTagsL.2 ⟨k, hk, ht⟩
   obtain ⟨u, _, rfl⟩ := mem_allTagsL_eraseL.1 this
-  intro hc; simp [Tag.erase] at hc
+  exact ⟨fun hc => by simp [Tag.erase] at hc, rfl⟩
 
 omit hg in
 theorem wf_fresh (ks : List Node) : WF { kids := eraseL ks } :=
@@ -741,11 +757,11 @@ theorem wf_fresh (ks : List Node) : WF { kids := eraseL ks } :=
 omit hg in
 theorem touch_facts (t : Tag) (hi : InvT t) :
     (touch t).expanded = (t.base == .defExpand) ∧ (touch t).cached = true ∧ (touch t).erase = t.erase ∧
-    (touch t).base = t.base := by
+    (touch t).base = t.base ∧ (touch t).att = .ok := by
   unfold touch
   cases hc : t.cached
-  · simp [Tag.erase]
-  · simp [hi hc, hc]
+  · simp [Tag.erase, hi.2]
+  · simp [hi.1 hc, hc, hi.2]
 
 omit hg in
 theorem expansion_erase (t : Tag) : expansion fold dd t.erase = expansion fold dd t := rfl
@@ -754,7 +770,8 @@ theorem expTag_ref (g : Bool) (t : Tag) (hi : InvT t) :
     erase (expTag fold true dd g t) = sETag fold dd t.erase ∧ cycTag fold dd g t = false ∧
     intTag fold dd g t = false ∧ InvN (expTag fold true dd g t) := by
   obtain ⟨hne, hok⟩ := good_expansion fold dd hg t
-  obtain ⟨h1, h2, h3, h4⟩ := touch_facts t hi
+  obtain ⟨h1, h2, h3, h4, h5⟩ := touch_facts t hi
+  have hatt : t.att = .ok := hi.2
   have hit : InvN (.tag t) := by intro u hu; simp only [allTags, List.mem_singleton] at hu; subst hu; exact hi
   have hse : sETag fold dd t.erase = if t.base = .def_ then
       match expansion fold dd t with
@@ -776,14 +793,14 @@ theorem expTag_ref (g : Bool) (t : Tag) (hi : InvT t) :
         · unfold intTag; simp [he]
         · rw [hexp]
           intro u hu; simp only [allTags, List.mem_singleton] at hu; subst hu
-          intro _; rw [h1, h4]
+          exact ⟨fun _ => by rw [h1, h4], h5⟩
       · have hd : t.base = .def_ := by
           simp only [candidate, Bool.or_eq_true, beq_iff_eq, Bool.and_eq_true] at hcand
           rcases hcand with h | h
           · exact h
           · exact absurd h.1 hde
         have hexp : expTag fold true dd g t = .grp (.tag (toDE true (touch t)) :: cs) := by
-          unfold expTag; simp [hcand, he, h1, hd]
+          unfold expTag; simp [hcand, he, h1, hd, hatt]
         have hte : (toDE true (touch t)).erase = { t.erase with base := Base.defExpand } := by
           rw [← h3]; rfl
         refine ⟨?_, ?_, ?_, ?_⟩
@@ -795,7 +812,7 @@ theorem expTag_ref (g : Bool) (t : Tag) (hi : InvT t) :
           intro k hk
           rcases List.mem_cons.1 hk with rfl | hk
           · intro u hu; simp only [allTags, List.mem_singleton] at hu; subst hu
-            intro _; simp [toDE]
+            exact ⟨fun _ => by simp [toDE], by simpa [toDE] using h5⟩
           · exact inv_of_erased hc2 k hk
     | noEntry =>
       have hexp : expTag fold true dd g t = .tag t := by unfold expTag; simp [he]
@@ -846,35 +863,63 @@ theorem deTags_eraseL (ks : List Node) : deTags (eraseL ks) = (deTags ks).map Ta
   rfl
 
 omit hg in
-theorem shr_ref : ∀ n, erase (shrN true n) = sSN (erase n) ∧ shrErrN (erase n) = shrErrN n ∧
-    (InvN n → InvN (shrN true n)) := by
+theorem mem_deTags {t : Tag} {ks : List Node} (h : t ∈ deTags ks) : Node.tag t ∈ ks ∧ t.base = .defExpand := by
+  simp only [deTags, List.mem_filter, beq_iff_eq] at h
+  exact ⟨mem_tagsOf.1 h.1, h.2⟩
+
+omit hg in
+theorem deTagsA_inv {ks : List Node} (hk : ∀ k ∈ ks, InvN k) : deTagsA ks = deTags ks := by
+  simp only [deTagsA, List.filter_eq_self]
+  intro t ht
+  have hm := mem_deTags ht
+  simp [(hk _ hm.1 t (by simp [allTags])).2]
+
+omit hg in
+/-- on a well-formed object the KeyError test of `shrink_defs` is the plain "two Def-expand tags in a group" -/
+theorem shrErr_spec : ∀ n, InvN n → shrErrN n = sErrN n := by
   apply node_ind
-  · intro t; simp [shrN, erase, sSN, shrErrN]
+  · intro t _; simp [shrErrN, sErrN]
+  · intro ks ih hi
+    have hk := inv_kids hi
+    simp only [shrErrN, sErrN, deTagsA_inv hk]
+    rw [shrErrL_any, sErrL_any]
+    congr 1
+    exact any_congr' (fun k hx => ih k hx (hk k hx))
+
+omit hg in
+theorem shr_ref : ∀ n, sErrN (erase n) = sErrN n ∧
+    (InvN n → erase (shrN true n) = sSN (erase n) ∧ InvN (shrN true n)) := by
+  apply node_ind
+  · intro t
+    refine ⟨by simp [erase, sErrN], ?_⟩
+    intro hi
+    have ha : t.att = .ok := (hi t (by simp [allTags])).2
+    simp [shrN, erase, sSN, ha, hi]
   · intro ks ih
-    refine ⟨?_, ?_, ?_⟩
-    · simp only [shrN, erase, sSN, deTags_eraseL]
-      cases deTags ks with
-      | nil =>
-        simp only [List.map_nil, erase, shrL_map, eraseL_map, sSL_map, List.map_map, Node.grp.injEq]
-        exact List.map_congr_left (fun k hx => by simpa using (ih k hx).1)
-      | cons t r => simp [erase, toDef, Tag.erase]
-    · simp only [erase, shrErrN, deTags_eraseL, List.length_map]
-      rw [shrErrL_any, shrErrL_any, eraseL_map, List.any_map]
+    refine ⟨?_, ?_⟩
+    · simp only [erase, sErrN, deTags_eraseL, List.length_map]
+      rw [sErrL_any, sErrL_any, eraseL_map, List.any_map]
       congr 1
-      exact any_congr' (fun k hx => by simpa using (ih k hx).2.1)
+      exact any_congr' (fun k hx => by simpa using (ih k hx).1)
     · intro hi
       have hk := inv_kids hi
-      simp only [shrN]
-      cases deTags ks with
+      have hA : deTagsA ks = deTags ks := deTagsA_inv hk
+      simp only [shrN, erase, sSN, deTags_eraseL, hA]
+      cases hd : deTags ks with
       | nil =>
-        simp only [shrL_map]
+        simp only [List.map_nil, erase, shrL_map, eraseL_map, sSL_map, List.map_map, Node.grp.injEq]
+        refine ⟨List.map_congr_left (fun k hx => by simpa using ((ih k hx).2 (hk k hx)).1), ?_⟩
         apply inv_grp
         intro k hx
         obtain ⟨m, hm, rfl⟩ := List.mem_map.1 hx
-        exact (ih m hm).2.2 (hk m hm)
+        exact ((ih m hm).2 (hk m hm)).2
       | cons t r =>
+        have hm := mem_deTags (show t ∈ deTags ks by rw [hd]; simp)
+        have hit : InvT t := hk _ hm.1 t (by simp [allTags])
+        simp only [List.map_cons]
+        refine ⟨by simp [erase, toDef, Tag.erase], ?_⟩
         intro u hu; simp only [allTags, List.mem_singleton] at hu; subst hu
-        intro _; simp [toDef]
+        exact ⟨fun _ => by simp [toDef], by simpa [toDef] using hit.2⟩
 
 /-- `expand_defs` on a well-formed object succeeds, creates no cycle, and is the expansion rewrite -/
 theorem expand_ok (o : Obj) (hw : WF o) :
@@ -896,23 +941,26 @@ theorem expand_ok (o : Obj) (hw : WF o) :
     exact List.map_congr_left (fun k hx => by simpa using (exp_ref fold hg k false (hk k hx)).1)
 
 omit hg in
-theorem shrErrL_eraseL (ks : List Node) : shrErrL (eraseL ks) = shrErrL ks := by
-  rw [shrErrL_any, shrErrL_any, eraseL_map, List.any_map]
-  exact any_congr' (fun k _ => by simpa using (shr_ref k).2.1)
+theorem sErrL_eraseL (ks : List Node) : sErrL (eraseL ks) = sErrL ks := by
+  rw [sErrL_any, sErrL_any, eraseL_map, List.any_map]
+  exact any_congr' (fun k _ => by simpa using (shr_ref k).1)
 
 omit hg in
 /-- `shrink_defs` on a well-formed object without a doubly tagged group succeeds and is the shrink rewrite -/
-theorem shrink_ok (o : Obj) (hw : WF o) (hs : shrErrL o.kids = false) :
+theorem shrink_ok (o : Obj) (hw : WF o) (hs : sErrL o.kids = false) :
     ∃ o', shrinkG true o = .ok o' ∧ WF o' ∧ eraseL o'.kids = sSL (eraseL o.kids) := by
   obtain ⟨hc, hk⟩ := hw
+  have hs' : shrErrL o.kids = false := by
+    rw [shrErrL_any, ← hs, sErrL_any]
+    exact any_congr' (fun k hx => shrErr_spec k (hk k hx))
   refine ⟨{ o with kids := shrL true o.kids }, ?_, ⟨hc, ?_⟩, ?_⟩
-  · simp [shrinkG, hc, hs]
+  · simp [shrinkG, hc, hs']
   · intro k hx
     simp only [shrL_map] at hx
     obtain ⟨m, hm, rfl⟩ := List.mem_map.1 hx
-    exact (shr_ref m).2.2 (hk m hm)
+    exact ((shr_ref m).2 (hk m hm)).2
   · simp only [eraseL_map, shrL_map, sSL_map, List.map_map]
-    exact List.map_congr_left (fun k _ => by simpa using (shr_ref k).1)
+    exact List.map_congr_left (fun k hx => by simpa using ((shr_ref k).2 (hk k hx)).1)
 
 
 /-! ## Printed form -/
@@ -1038,13 +1086,13 @@ theorem sSL_idem (ks : List Node) : sSL (sSL ks) = sSL ks := by
   simp only [sSL_map, List.map_map]
   exact List.map_congr_left (fun k _ => by simpa using sS_idem k)
 
-theorem shrErrL_sEL (ks : List Node) : shrErrL (sEL fold dd ks) = shrErrL ks := by
-  rw [shrErrL_any, shrErrL_any, sEL_map, List.any_map]
+theorem sErrL_sEL (ks : List Node) : sErrL (sEL fold dd ks) = sErrL ks := by
+  rw [sErrL_any, sErrL_any, sEL_map, List.any_map]
   exact any_congr' (fun k _ => by simpa using shrErr_sE fold hg k)
 
 omit hg in
-theorem shrErrL_sSL (ks : List Node) (h : shrErrL ks = false) : shrErrL (sSL ks) = false := by
-  rw [shrErrL_any] at h ⊢
+theorem sErrL_sSL (ks : List Node) (h : sErrL ks = false) : sErrL (sSL ks) = false := by
+  rw [sErrL_any] at h ⊢
   rw [sSL_map, List.any_map]
   simp only [List.any_eq_false] at h ⊢
   intro k hk
@@ -1068,12 +1116,12 @@ theorem expand_idem (o : Obj) (hw : WF o) :
 
 /-- **shrink_expand**: shrinking after expanding is shrinking (every Def-expand group, written or produced by
 the expansion, is back in `Def` form); no step fails when no group carries two Def-expand tags. -/
-theorem shrink_expand (o : Obj) (hw : WF o) (hs : shrErrL o.kids = false) :
+theorem shrink_expand (o : Obj) (hw : WF o) (hs : sErrL o.kids = false) :
     ∃ o1 o2 os, expandG fold true dd o = .ok o1 ∧ shrinkG true o1 = .ok o2 ∧ shrinkG true o = .ok os ∧
       eraseL o2.kids = eraseL os.kids ∧ render o2 = render os := by
   obtain ⟨o1, h1, w1, e1⟩ := expand_ok fold hg o hw
-  have hs1 : shrErrL o1.kids = false := by
-    rw [← shrErrL_eraseL, e1, shrErrL_sEL fold hg, shrErrL_eraseL]; exact hs
+  have hs1 : sErrL o1.kids = false := by
+    rw [← sErrL_eraseL, e1, sErrL_sEL fold hg, sErrL_eraseL]; exact hs
   obtain ⟨o2, h2, w2, e2⟩ := shrink_ok o1 w1 hs1
   obtain ⟨os, h3, w3, e3⟩ := shrink_ok o hw hs
   have : eraseL o2.kids = eraseL os.kids := by rw [e2, e1, sSL_sEL fold hg, e3]
@@ -1081,9 +1129,9 @@ theorem shrink_expand (o : Obj) (hw : WF o) (hs : shrErrL o.kids = false) :
 
 omit hg in
 /-- an annotation written without Def-expand tags is a fixed point of the shrink rewrite -/
-theorem noDE_fixed : ∀ n, (∀ t ∈ allTags n, t.base ≠ .defExpand) → sSN n = n ∧ shrErrN n = false := by
+theorem noDE_fixed : ∀ n, (∀ t ∈ allTags n, t.base ≠ .defExpand) → sSN n = n ∧ sErrN n = false := by
   apply node_ind
-  · intro t _; simp [sSN, shrErrN]
+  · intro t _; simp [sSN, sErrN]
   · intro ks ih h
     have hk : ∀ k ∈ ks, ∀ t ∈ allTags k, t.base ≠ .defExpand :=
       fun k hk t ht => h t (by simp only [allTags]; exact mem_allTagsL.2 ⟨k, hk, ht⟩)
@@ -1095,16 +1143,16 @@ theorem noDE_fixed : ∀ n, (∀ t ∈ allTags n, t.base ≠ .defExpand) → sSN
     refine ⟨?_, ?_⟩
     · simp only [sSN, hd, sSL_map, Node.grp.injEq]
       exact map_eq_self.2 (fun k hx => (ih k hx (hk k hx)).1)
-    · simp only [shrErrN, hd, shrErrL_any, List.length_nil]
-      have : ks.any shrErrN = false := by
+    · simp only [sErrN, hd, sErrL_any, List.length_nil]
+      have : ks.any sErrN = false := by
         simp only [List.any_eq_false]; intro k hx; simp [(ih k hx (hk k hx)).2]
       simp [this]
 
 omit hg in
 theorem noDE_fixedL (ks : List Node) (h : ∀ t ∈ allTagsL ks, t.base ≠ .defExpand) :
-    sSL ks = ks ∧ shrErrL ks = false := by
+    sSL ks = ks ∧ sErrL ks = false := by
   have := noDE_fixed (.grp ks) (by simpa [allTags] using h)
-  simpa [sSN, shrErrN, deTags, show (tagsOf ks).filter (fun t => t.base == .defExpand) = [] from by
+  simpa [sSN, sErrN, deTags, show (tagsOf ks).filter (fun t => t.base == .defExpand) = [] from by
     simp only [List.filter_eq_nil_iff]
     intro t ht
     have := h t (mem_allTagsL.2 ⟨.tag t, mem_tagsOf.1 ht, by simp [allTags]⟩)
@@ -1131,8 +1179,8 @@ theorem shrink_expand_original (o : Obj) (hw : WF o) (hnd : ∀ t ∈ allTagsL o
     obtain ⟨o1', h1', w1, e1⟩ := expand_ok fold hg o hw
     have : o1' = o1 := by rw [h1] at h1'; cases h1'; rfl
     subst this
-    have hs1 : shrErrL o1'.kids = false := by
-      rw [← shrErrL_eraseL, e1, shrErrL_sEL fold hg, shrErrL_eraseL]; exact hs
+    have hs1 : sErrL o1'.kids = false := by
+      rw [← sErrL_eraseL, e1, sErrL_sEL fold hg, sErrL_eraseL]; exact hs
     obtain ⟨o2', h2', w2, _⟩ := shrink_ok o1' w1 hs1
     have : o2' = o2 := by rw [h2] at h2'; cases h2'; rfl
     subst this; exact w2.1
@@ -1141,6 +1189,29 @@ theorem shrink_expand_original (o : Obj) (hw : WF o) (hnd : ∀ t ∈ allTagsL o
   exact ⟨o1, o2, h1, h2, he, render_of_erase hw2 hw.1 he⟩
 
 /-! ### Histories -/
+
+omit hg in
+theorem valAttL_map (c : Bool) (ks : List Node) : valAttL fold c dd ks = ks.map (valAttN fold c dd) := by
+  induction ks with
+  | nil => simp [valAttL]
+  | cons k ks ih => simp [valAttL, ih]
+
+omit hg in
+/-- **validate_identity**: `validate()` (which hands `get_definition` a copy of the tag) leaves the object's
+state — tree, cached expansions, flags, parent pointers — exactly as it was. -/
+theorem validate_identity (o : Obj) (hc : o.cyclic = false) : validateG fold true dd o = .ok o := by
+  have h : ∀ n, valAttN fold true dd n = n := by
+    apply node_ind
+    · intro t; simp [valAttN, valTag]
+    · intro ks ih
+      simp only [valAttN, valAttL_map, Node.grp.injEq]
+      exact map_eq_self.2 ih
+  have hl : valAttL fold true dd o.kids = o.kids := by
+    rw [valAttL_map]; exact map_eq_self.2 (fun k _ => h k)
+  cases o with
+  | mk kids cyc =>
+    simp only at hc hl
+    simp [validateG, hc, hl]
 
 /-- what a history amounts to: nothing, expansion, shrinking, or expansion of the shrunk form -/
 inductive Mode where
@@ -1169,17 +1240,17 @@ theorem canon_step (m : Mode) (op : Op) (t : List Node) :
   cases m <;> cases op <;>
     simp [canon, next, sEL_idem fold hg, sSL_sEL fold hg, sSL_idem]
 
-theorem history_aux : ∀ (ops : List Op) (o : Obj) (m : Mode) (t : List Node), WF o → shrErrL t = false →
+theorem history_aux : ∀ (ops : List Op) (o : Obj) (m : Mode) (t : List Node), WF o → sErrL t = false →
     eraseL o.kids = canon fold dd m t →
-    ∃ o', runG fold true dd o ops = .ok o' ∧ WF o' ∧ eraseL o'.kids = canon fold dd (ops.foldl next m) t := by
+    ∃ o', runG fold true true dd o ops = .ok o' ∧ WF o' ∧ eraseL o'.kids = canon fold dd (ops.foldl next m) t := by
   intro ops
   induction ops with
   | nil => intro o m t hw _ he; exact ⟨o, rfl, hw, he⟩
   | cons op ops ih =>
     intro o m t hw ht he
-    have hcs : shrErrL (canon fold dd m t) = false := by
-      cases m <;> simp [canon, shrErrL_sEL fold hg, shrErrL_sSL, ht]
-    have hso : shrErrL o.kids = false := by rw [← shrErrL_eraseL, he]; exact hcs
+    have hcs : sErrL (canon fold dd m t) = false := by
+      cases m <;> simp [canon, sErrL_sEL fold hg, sErrL_sSL, ht]
+    have hso : sErrL o.kids = false := by rw [← sErrL_eraseL, he]; exact hcs
     have hstep := canon_step fold hg m op t
     cases op with
     | expand =>
@@ -1198,28 +1269,71 @@ theorem history_aux : ∀ (ops : List Op) (o : Obj) (m : Mode) (t : List Node), 
       exact ⟨o', by simp [runG, stepG, render, hw.1, Except.map, h'], w', by simpa using e'⟩
     | validate =>
       obtain ⟨o', h', w', e'⟩ := ih o (next m .validate) t hw ht (by rw [he]; exact hstep)
-      exact ⟨o', by simp [runG, stepG, render, hw.1, Except.map, h'], w', by simpa using e'⟩
+      exact ⟨o', by simp [runG, stepG, validate_identity fold o hw.1, h'], w', by simpa using e'⟩
 
 /-- **expand_shrink_history**: for every finite sequence of expand / shrink / copy / str / validate on one
 well-formed object (no group with two Def-expand tags) no step fails, the object stays well-formed, and the
 final tree (hence the printout) is: the original if the sequence has no expand/shrink; its expansion if it
 has only expands; its shrunk form if the last of them is a shrink; the expansion of its shrunk form if a
 shrink occurred and the last is an expand. -/
-theorem expand_shrink_history (o : Obj) (hw : WF o) (hs : shrErrL o.kids = false) (ops : List Op) :
-    ∃ o', runG fold true dd o ops = .ok o' ∧ WF o' ∧
+theorem expand_shrink_history (o : Obj) (hw : WF o) (hs : sErrL o.kids = false) (ops : List Op) :
+    ∃ o', runG fold true true dd o ops = .ok o' ∧ WF o' ∧
       eraseL o'.kids = canon fold dd (ops.foldl next .id) (eraseL o.kids) ∧
       render o' = .ok (strL (canon fold dd (ops.foldl next .id) (eraseL o.kids))) := by
   obtain ⟨o', h, w, e⟩ := history_aux fold hg ops o .id (eraseL o.kids) hw
-    (by rw [shrErrL_eraseL]; exact hs) rfl
+    (by rw [sErrL_eraseL]; exact hs) rfl
   refine ⟨o', h, w, e, ?_⟩
   simp only [render, w.1, Bool.false_eq_true, if_false]
   rw [← strL_eraseL, e]
+
+omit hg in
+theorem run_append (f c : Bool) (o : Obj) (p q : List Op) :
+    runG fold f c dd o (p ++ q) =
+      match runG fold f c dd o p with
+      | .ok o1 => runG fold f c dd o1 q
+      | .error e => .error e := by
+  induction p generalizing o with
+  | nil => simp [runG]
+  | cons op p ih =>
+    simp only [List.cons_append, runG]
+    cases stepG fold f c dd o op with
+    | ok o' => simpa using ih o'
+    | error e => rfl
+
+omit hg in
+theorem mode_filter_validate (p : List Op) (m : Mode) :
+    (p.filter (fun op => op != Op.validate)).foldl next m = p.foldl next m := by
+  induction p generalizing m with
+  | nil => rfl
+  | cons op p ih =>
+    cases op <;> simp [List.filter_cons, ih] <;> cases m <;> simp [next, ih]
+
+/-- **validate_preserves_expand_shrink**: take any history of validate / expand_defs / shrink_defs / copy / str
+on one well-formed object and cut it anywhere (`p` = what has run so far, `q` = the rest).  No step fails; the
+state reached after `p` is — tree up to bookkeeping, and printout — the state reached by `p` with every
+`validate` removed; and the printout is the pure function of (source tree, definitions, last expand/shrink in
+`p`) given by `canon`.  So `validate` is a no-op on the observable state at every point of every history. -/
+theorem validate_preserves_expand_shrink (o : Obj) (hw : WF o) (hs : sErrL o.kids = false) (p q : List Op) :
+    ∃ o1 o2 o3, runG fold true true dd o (p ++ q) = .ok o3 ∧ runG fold true true dd o p = .ok o1 ∧
+      runG fold true true dd o1 q = .ok o3 ∧
+      runG fold true true dd o (p.filter (fun op => op != Op.validate)) = .ok o2 ∧
+      eraseL o1.kids = eraseL o2.kids ∧ render o1 = render o2 ∧
+      render o1 = .ok (strL (canon fold dd (p.foldl next .id) (eraseL o.kids))) := by
+  obtain ⟨o3, h3, _, _, _⟩ := expand_shrink_history fold hg o hw hs (p ++ q)
+  obtain ⟨o1, h1, w1, e1, r1⟩ := expand_shrink_history fold hg o hw hs p
+  obtain ⟨o2, h2, w2, e2, _⟩ := expand_shrink_history fold hg o hw hs (p.filter (fun op => op != Op.validate))
+  have hq : runG fold true true dd o1 q = .ok o3 := by
+    have := run_append fold (dd := dd) true true o p q
+    rw [h3, h1] at this; exact this.symm
+  rw [mode_filter_validate] at e2
+  have he : eraseL o1.kids = eraseL o2.kids := by rw [e1, e2]
+  exact ⟨o1, o2, o3, h3, h1, hq, h2, he, render_of_erase w1.1 w2.1 he, r1⟩
 
 /-- **expand_shrink_history_original**: for an annotation written in `Def` form the final printout of any
 history is that of `expand o` if the last expand/shrink is an expand, and that of `o` (= `shrink o`) otherwise. -/
 theorem expand_shrink_history_original (o : Obj) (hw : WF o)
     (hnd : ∀ t ∈ allTagsL o.kids, t.base ≠ .defExpand) (ops : List Op) :
-    ∃ o' oe os, runG fold true dd o ops = .ok o' ∧ expandG fold true dd o = .ok oe ∧
+    ∃ o' oe os, runG fold true true dd o ops = .ok o' ∧ expandG fold true dd o = .ok oe ∧
       shrinkG true o = .ok os ∧ render os = render o ∧
       render o' = (match ops.foldl next .id with
         | .id => render o
@@ -1255,11 +1369,27 @@ def ddA : DefDict := [⟨['A'], ['A'], [.tag tBlue, .tag tRed], false⟩]
 code prints `(Def-expand/A,(Blue,Red))` — and a written Def-expand that was queried, shrunk and expanded again
 stays `Def/A` in the original code. -/
 theorem expand_twice_counterexample :
-    (runG id false ddA { kids := [.tag tDefA] } [.expand, .expand, .str]).toOption.isNone = true ∧
-    ((runG id true ddA { kids := [.tag tDefA] } [.expand, .expand, .str]).toOption.map
+    (runG id false true ddA { kids := [.tag tDefA] } [.expand, .expand, .str]).toOption.isNone = true ∧
+    ((runG id true true ddA { kids := [.tag tDefA] } [.expand, .expand, .str]).toOption.map
         (fun o => String.ofList (strL o.kids))) = some "(Def-expand/A,(Blue,Red))" ∧
-    ((runG id false ddA { kids := [.grp [.tag tDeA, .grp [.tag tBlue, .tag tRed]]] }
+    ((runG id false true ddA { kids := [.grp [.tag tDeA, .grp [.tag tBlue, .tag tRed]]] }
         [.expand, .shrink, .expand]).toOption.map (fun o => String.ofList (strL o.kids))) = some "Def/A" := by
+  decide
+
+/-- **validate_detach_counterexample**: if `validate` handed the live tag to `get_definition` (no copy), the tag's
+`_parent` would point outside the tree: a following `expand_defs` only renames the tag (`Def-expand/A` without its
+content), and a written Def-expand group is no longer shrunk.  With the copy (the code) both behave. -/
+theorem validate_detach_counterexample :
+    ((runG id true false ddA { kids := [.tag tDefA] } [.validate, .expand]).toOption.map
+        (fun o => String.ofList (strL o.kids))) = some "Def-expand/A" ∧
+    ((runG id true true ddA { kids := [.tag tDefA] } [.validate, .expand]).toOption.map
+        (fun o => String.ofList (strL o.kids))) = some "(Def-expand/A,(Blue,Red))" ∧
+    ((runG id true false ddA { kids := [.tag tDefA] } [.validate, .expand, .shrink]).toOption.map
+        (fun o => String.ofList (strL o.kids))) = some "Def/A" ∧
+    ((runG id true false ddA { kids := [.grp [.tag tDeA, .grp [.tag tBlue, .tag tRed]]] }
+        [.validate, .shrink]).toOption.map (fun o => String.ofList (strL o.kids))) = some "(Def-expand/A,(Blue,Red))" ∧
+    ((runG id true true ddA { kids := [.grp [.tag tDeA, .grp [.tag tBlue, .tag tRed]]] }
+        [.validate, .shrink]).toOption.map (fun o => String.ofList (strL o.kids))) = some "Def/A" := by
   decide
 
 section
@@ -1463,6 +1593,75 @@ theorem defexpand_order_counterexample :
     checkDefExpand id true ddA tDeA (some [.tag tDeA, .grp [.tag tRed]]) = [.defExpandInvalid] := by
   decide
 
+/-! ## Gathering definitions from Def-expand groups (`DefExpandGatherer._handle_known_definition`) -/
+
+section
+variable (fold : Str → Str)
+
+/-- **gather_match_silent**: a Def-expand group of a known definition whose sorted form is `==` the sorted
+expansion changes nothing. -/
+theorem gather_match_silent (g : Bool) (st : GState) (t : Tag) (ks cs : List Node)
+    (he : expansion fold st.dd t = .ok cs)
+    (hm : eqvL fold (sortG fold (.tag t :: cs)) (sortG fold ks) = true) :
+    gatherStep fold g st t ks = .ok st := by
+  unfold gatherStep; simp [he, hm]
+
+/-- **gather_conflict_reported**: a Def-expand group of a known definition that differs from the expansion is
+appended to the errors under the folded name and the dictionary is left alone — reported, not merged. -/
+theorem gather_conflict_reported (g : Bool) (st : GState) (t : Tag) (ks cs c : List Node)
+    (he : expansion fold st.dd t = .ok cs)
+    (hm : eqvL fold (sortG fold (.tag t :: cs)) (sortG fold ks) = false)
+    (hc : (groupsOf (sortG fold ks)).head? = some c) :
+    gatherStep fold g st t ks =
+      .ok { st with errors := addError st.errors (fold (labelOf t)) c } := by
+  unfold gatherStep; simp [he, hm, hc]
+
+/-- **gather_new_valuefree**: an unknown name without a value adds the definition (sorted fresh content,
+no placeholder) at the end of the dictionary; nothing is reported. -/
+theorem gather_new_valuefree (g : Bool) (st : GState) (t : Tag) (ks c : List Node)
+    (he : expansion fold st.dd t = .noEntry) (hv : t.extension.contains '/' = false)
+    (hc : (groupsOf (sortG fold ks)).head? = some c) :
+    gatherStep fold g st t ks =
+      .ok { st with dd := st.dd ++ [⟨fold (labelOf t), labelOf t, eraseL (sortG fold c), false⟩] } := by
+  have hl : lookup st.dd (fold (labelOf t)) = none := by
+    unfold expansion at he
+    cases h : lookup st.dd (fold (labelOf t)) with
+    | none => rfl
+    | some e => simp only [h] at he; split at he <;> (try split at he) <;> (try split at he) <;> (try split at he) <;> cases he
+  have hany : st.dd.any (fun x => x.key == fold (labelOf t)) = false := by
+    unfold lookup at hl
+    simpa [List.find?_eq_none] using hl
+  have hv' : ¬ '/' ∈ t.extension := by simpa using hv
+  unfold gatherStep; simp [he, hv', hc, setEntry, hany]
+
+/-- **gather_mismatch_reported** (the proposed repair `gfix`): a name that is defined but used with the wrong
+value presence is reported and the definition is kept. -/
+theorem gather_mismatch_reported (st : GState) (t : Tag) (ks c : List Node) (b : Bool)
+    (he : expansion fold st.dd t = .mismatch b)
+    (hc : (groupsOf (sortG fold ks)).head? = some c) :
+    gatherStep fold true st t ks =
+      .ok { st with errors := addError st.errors (fold (labelOf t)) c } := by
+  unfold gatherStep; simp [he, hc]
+end
+
+/-- **gather_overwrite_counterexample**: the code as it is — a known takes-value definition `A/# ↦ (L/#)` met
+as `(Def-expand/A, (Red))` (no value) is silently replaced by the value-free `A ↦ (Red)` with nothing reported;
+with the proposed repair it is kept and the group is reported.  (A conflict with matching value presence —
+third clause, `A ↦ (Blue,Red)` against `(Def-expand/A, (Red))` — is reported by both.) -/
+theorem gather_overwrite_counterexample :
+    let ddV : DefDict := [⟨['A'], ['A'], [.tag { name := ['L'], ext := ['/', '#'] }], true⟩]
+    let grp : List Node := [.tag tDeA, .grp [.tag tRed]]
+    ((gatherStep id false { dd := ddV } tDeA grp).toOption.map
+        (fun st => (st.dd.map (fun e => (String.ofList (strL e.content), e.takes)), st.errors.length))) =
+      some ([("Red", false)], 0) ∧
+    ((gatherStep id true { dd := ddV } tDeA grp).toOption.map
+        (fun st => (st.dd.map (fun e => (String.ofList (strL e.content), e.takes)), st.errors.length))) =
+      some ([("L/#", true)], 1) ∧
+    ((gatherStep id false { dd := ddA } tDeA grp).toOption.map
+        (fun st => (st.dd.map (fun e => String.ofList (strL e.content)), st.errors.length))) =
+      some (["Blue,Red"], 1) := by
+  decide
+
 /-! ## Non-vacuity -/
 
 example : Good ddA := by
@@ -1486,7 +1685,7 @@ example : checkDefExpand id true ddA tDeA (some [.grp [.tag tRed, .tag tBlue], .
     rcases ha with rfl | rfl <;> rcases hb with rfl | rfl <;> first | rfl | exact absurd h (by decide)
 
 example : WF { kids := [.tag tDefA] } := wf_fresh [.tag tDefA]
-example : shrErrL [.tag tDefA] = false := by decide
+example : sErrL [.tag tDefA] = false := by decide
 example : ∀ t ∈ allTagsL [Node.tag tDefA], t.base ≠ .defExpand := by decide
 example : Acceptable { base := .definition, ext := ['/', 'A'] } [.tag { base := .definition, ext := ['/', 'A'] }, .grp [.tag tRed, .tag tBlue]] :=
   ⟨by decide, by decide, by decide, by decide, by decide, by decide, by decide, by decide⟩
